@@ -21,7 +21,7 @@ pub mod c19;
 
 use crate::engine::Cfg;
 
-pub const SCENARIOS: &[&str] = &["c01", "c02a", "c02b", "c03", "c04a", "c04b", "c04c", "c04d", "c05", "c06mpsc", "c06spsc", "c06mpmc", "c08", "c09", "c10s", "c10f", "c11c", "c11b", "c11w", "c12", "c13", "c14s", "c14sel", "c15", "c16q", "c16sel", "c17s", "c17d", "c18t", "c18c", "c19v1", "c19plain", "c19wake"];
+pub const SCENARIOS: &[&str] = &["c01", "c02a", "c02b", "c03", "c04a", "c04b", "c04c", "c04d", "c05", "c06mpsc", "c06spsc", "c06mpmc", "c08", "c09", "c10s", "c10f", "c11c", "c11b", "c11w", "c12", "c13", "c13d", "c14s", "c14sel", "c15", "c16q", "c16sel", "c17s", "c17d", "c18t", "c18c", "c19v1", "c19plain", "c19wake"];
 
 pub fn run(name: &str, seed: u64, ov: impl FnMut(&mut Cfg)) -> ! {
     match name {
@@ -46,6 +46,7 @@ pub fn run(name: &str, seed: u64, ov: impl FnMut(&mut Cfg)) -> ! {
         "c11w" => c11::run_waitgroup(seed, ov),
         "c12" => c12::run(seed, ov),
         "c13" => c13::run(seed, ov),
+        "c13d" => c13::run_detached(seed, ov),
         "c14s" => c14::run_scope(seed, ov),
         "c14sel" => c14::run_select(seed, ov),
         "c15" => c15::run(seed, ov),
